@@ -45,6 +45,11 @@ ASSUMPTIONS = [
     "handler, handler error with stop-on-error, producer failure, limiting stop) although handlers / jobs sleep for 500",
     "how a handler ended is only judged in runs nobody disturbed (no injection, no producer failure, no stop from a "
     "handler) in which some handler / job / idle handler raises: there every other event / job handler runs to its end",
+    "a log record factory that a handler installs during the run (chained to the current one) may stay installed or be "
+    "removed by the dispatcher: only 'a record created afterwards carries real time and creating it does not fail' is "
+    "demanded in those scenarios",
+    "finalize of one producer raising at once while the others' finalize sleeps 0.01 virtual s: each finalize was entered "
+    "once and had completed when run() ended",
     "the order in which the catch-all handlers of one stage start is not observed; signal-driven stop is not explored "
     "(stop_signals=[])",
 ]
@@ -108,9 +113,14 @@ class Prod(event.Producer):
             return
         await asyncio.sleep(self._long)
 
+    fin_sleep = 0.0   # > 0: finalize really suspends (closing a connection ...)
+
     async def finalize(self):
         self.log.append(("fin", self.name))
-        await asyncio.sleep(0)
+        if self.fail == "fin0":   # fails at once, while the other producers' finalize is still in progress
+            self.log.append(("fin-end", self.name))
+            raise self.exc
+        await asyncio.sleep(self.fin_sleep)
         self.log.append(("fin-end", self.name))
         if self.fail == "fin":
             raise self.exc
@@ -196,6 +206,16 @@ def scenarios(tier, seed):
                     for hflavour in ("raises-stop", "job-raises-stop"):
                         if rk != "fn" or hflavour == "job-raises-stop":
                             out.append((kind, fails, maxc, None, 1, 2, hflavour, LONG, 0, "WARNING", _opts(rk=rk)))
+        # one producer's finalize raises at once while the others' finalize really suspends: every finalize has COMPLETED
+        # when run() ends
+        for fails in (("fin0", None), (None, "fin0"), ("fin0", "main1")):
+            for inject in (None, "stop", "cancel"):
+                out.append((kind, fails, 1, inject, 1, 1, "plain", 0.03, 0, "WARNING", _opts(finsleep=0.01)))
+        # a handler installs its own (chained) log record factory DURING the run and leaves it installed
+        for fails in ((None, None), (None, "main1"), ("fin", None)):
+            for inject in (None, "stop", "cancel"):
+                out.append((kind, fails, 2, inject, 1, 1, "plain", 0.03, 0, "WARNING", _opts(inrun_factory=True)))
+                out.append((kind, fails, 2, inject, 1, 1, "raises", 0.03, 0, "DEBUG", _opts(inrun_factory=True)))
         # logging
         for fails in ((None, None), ("init", None), (None, "main0"), ("fin", None)):
             for inject in (None, "stop", "cancel"):
@@ -260,6 +280,8 @@ def make_run(sc, tier, states=None):
             if state["trigger"] is None:
                 state["trigger"] = lt()
         prods = [Prod(f"p{i}", f, log, i, lt, LONG * 4 if kind == "bt" else 0.3, trigger) for i, f in enumerate(fails)]
+        for p_ in prods:
+            p_.fin_sleep = opts.get("finsleep", 0.0)
         srcs = [bs.FifoQueueEventSource(producer=p, events=[bs.Event(T(0.0)) for _ in range(nev)] +
                                         ([bs.Event(T(LATE))] if late else [])) for p in prods]
         inflight = [0]
@@ -294,6 +316,16 @@ def make_run(sc, tier, states=None):
             async def h(e):
                 k = key_of(e)
                 enter(what, k)
+                if opts.get("inrun_factory") and what == "hb" and not state.get("inrun"):
+                    # logging cookbook: add an attribute to every record, chaining to whatever factory is installed
+                    prev = logging.getLogRecordFactory()
+
+                    def their_factory(*args, **kwargs):
+                        rec = prev(*args, **kwargs)
+                        rec.their_tag = "theirs"
+                        return rec
+                    logging.setLogRecordFactory(their_factory)
+                    state["inrun"] = True
                 how = "cancelled"
                 try:
                     if raises:
@@ -377,6 +409,7 @@ def make_run(sc, tier, states=None):
                 await d.run(stop_signals=[])
             finally:
                 state["end_time"] = lt()
+                state["log_len_at_end"] = len(log)
                 if kind == "rt":
                     state["limiter"].cancel()
 
@@ -441,7 +474,9 @@ def make_run(sc, tier, states=None):
                 root.setLevel(old_level)
         f1 = logging.getLogRecordFactory()
         log_after = "ok"
-        if f1 is not f0:
+        if f1 is not f0 and not state.get("inrun"):
+            # (a factory that the application installed DURING the run may stay or go: the statement only says that
+            # logging behaves as before the run, i.e. without simulated timestamps and without failing)
             log_after = "factory-not-restored"
         try:
             rec = f1("verif", logging.WARNING, __file__, 1, "after run", (), None)
@@ -461,7 +496,8 @@ def make_run(sc, tier, states=None):
                     end_time=state.get("end_time", loop.time()), inj_time=state["inj_time"], limited=bool(state.get("limited")),
                     counts=dict(counts), errs=errs, log_after=log_after, inject_exc=state.get("inject_exc"),
                     trigger=state["trigger"], last_entry=max(entries) if entries else None, running_at_end=state.get("running_at_end", []),
-                    left={f"{w}:{h}": n for (w, h), n in sorted(left.items())})
+                    left={f"{w}:{h}": n for (w, h), n in sorted(left.items())},
+                    log_len_at_end=state.get("log_len_at_end", len(log)))
     return run_one
 
 
@@ -481,12 +517,13 @@ def oracle(sc, r):
     if mains and (len(inits_end) < n or min(mains) < max(inits_end)):
         bad.append(("main-before-init", "a producer's main started before every producer was initialised"))
     fins = collections.Counter(x[1] for x in log if x[0] == "fin")
-    fin_ends = collections.Counter(x[1] for x in log if x[0] == "fin-end")
+    # finalize has COMPLETED when run() ends (what the log held at that moment), not some time later
+    fin_ends = collections.Counter(x[1] for x in log[:r["log_len_at_end"]] if x[0] == "fin-end")
     for i in range(n):
         if fins[f"p{i}"] != 1:
             bad.append(("finalize-count", f"producer p{i} finalised {fins[f'p{i}']}x"))
         elif fin_ends[f"p{i}"] != 1:
-            bad.append(("finalize-interrupted", f"producer p{i}'s finalize did not run to completion"))
+            bad.append(("finalize-interrupted", f"producer p{i}'s finalize had not run to completion when run() ended"))
     if r["maxin"] > maxc:
         bad.append(("pool-overflow", f"{r['maxin']} events/jobs in flight with max_concurrent={maxc}"))
     out = r["out"]
